@@ -20,6 +20,7 @@ RULE = ("histories = random interleavings of public operations over a shared poo
         "been mutated in place. Distinct by hash of the op-kind sequence; non-trivial = >=1 operation that takes a container or refines.")
 ASSUMPTIONS = ["generation (fake) is excluded from the determinism re-execution (it draws from the global RNG by design)",
                "Props registries are compared by a shallow identity fingerprint on every access and structurally at quiescent points"]
+REACH_FILES = ['d42/declaration/_props.py', 'd42/declaration/types/_list_schema.py', 'd42/declaration/types/_dict_schema.py', 'd42/declaration/types/_any_schema.py', 'd42/utils/_make_required.py']
 TIERS = {"quick": dict(shards=16, cases=96, ops=250), "thorough": dict(shards=16, cases=1600, ops=600)}
 CASE_TIMEOUT = 600
 
